@@ -307,6 +307,28 @@ pub fn float_ops(op: &str, a: &[&str]) -> Option<String> {
                 format!("{} {}", show_f64(s.theta().get()), show_f64(s.phi().get()))
             })
         }
+        // the same two calls on a freshly constructed instance that is dropped afterwards (public constructor): the answer of
+        // the projection must not depend on which instance computes it, nor on instances created and dropped earlier
+        ("dodeca_forward_new", 3) => {
+            let sp = Spherical::new(Radians::new_unchecked(p_f64(a[0])?), Radians::new_unchecked(p_f64(a[1])?));
+            let o = p_u64(a[2])?;
+            if o > 255 {
+                return None;
+            }
+            let mut d = match DodecahedronProjection::new() { Ok(d) => d, Err(_) => return Some("err new".to_string()) };
+            show(d.forward(sp, o as u8), |f| format!("{} {}", show_f64(f.x()), show_f64(f.y())))
+        }
+        ("dodeca_inverse_new", 3) => {
+            let f = Face::new(p_f64(a[0])?, p_f64(a[1])?);
+            let o = p_u64(a[2])?;
+            if o > 255 {
+                return None;
+            }
+            let mut d = match DodecahedronProjection::new() { Ok(d) => d, Err(_) => return Some("err new".to_string()) };
+            show(d.inverse(f, o as u8), |s| {
+                format!("{} {}", show_f64(s.theta().get()), show_f64(s.phi().get()))
+            })
+        }
         ("authalic_forward", 1) => format!(
             "ok {}",
             show_f64(a5::projections::authalic::AuthalicProjection.forward(Radians::new_unchecked(p_f64(a[0])?)).get())
@@ -404,6 +426,57 @@ pub fn handle_line_caught(line: &str) -> String {
         return "ok 1".to_string(); // model-side evaluation check; the implementation side is the identity
     }
     handle_plain_caught(t)
+}
+
+/// `a5h hammer T R`: read a (small) set of request lines, answer each once on the main thread, then let T threads each run
+/// the whole set R times, every thread in its own rotated order and all at once (one barrier at the start).  Prints, per
+/// line, the main thread's answer, or `MISMATCH <first differing answer>` when some thread, at some repetition, got another
+/// one: a result that depends on what other threads (or earlier calls) did.
+pub fn run_hammer(args: &[String]) {
+    use std::io::BufRead;
+    use std::sync::{Arc, Barrier, Mutex};
+    let t_n: usize = args.first().and_then(|a| a.parse().ok()).unwrap_or(8);
+    let reps: usize = args.get(1).and_then(|a| a.parse().ok()).unwrap_or(100);
+    let lines: Vec<String> = std::io::stdin().lock().lines().map_while(Result::ok).collect();
+    let n = lines.len();
+    let base: Vec<String> = lines.iter().map(|l| handle_plain_caught(l)).collect();
+    let lines = Arc::new(lines);
+    let base = Arc::new(base);
+    let bad: Arc<Mutex<Vec<Option<String>>>> = Arc::new(Mutex::new(vec![None; n]));
+    let barrier = Arc::new(Barrier::new(t_n));
+    let mut handles = Vec::new();
+    for t in 0..t_n {
+        let (lines, base, bad, barrier) = (Arc::clone(&lines), Arc::clone(&base), Arc::clone(&bad), Arc::clone(&barrier));
+        handles.push(std::thread::spawn(move || {
+            barrier.wait();
+            for r in 0..reps {
+                for k in 0..n {
+                    let i = (k * (2 * t + 1) + t * 7 + r) % n;
+                    let resp = handle_plain_caught(&lines[i]);
+                    if resp != base[i] {
+                        let mut b = bad.lock().unwrap();
+                        if b[i].is_none() {
+                            b[i] = Some(resp);
+                        }
+                    }
+                }
+            }
+        }));
+    }
+    for h in handles {
+        let _ = h.join();
+    }
+    let bad = bad.lock().unwrap();
+    let stdout = std::io::stdout();
+    let mut o = std::io::BufWriter::new(stdout.lock());
+    use std::io::Write;
+    for i in 0..n {
+        match &bad[i] {
+            None => writeln!(o, "{}", base[i]).unwrap(),
+            Some(r) => writeln!(o, "MISMATCH {}", r).unwrap(),
+        }
+    }
+    o.flush().unwrap();
 }
 
 /// `a5h threads N [B]`: read all request lines, give line i to thread i % N, every thread runs its
